@@ -888,6 +888,11 @@ func (g *gen) dolist(t typ, d int) (node, bool) {
 	g.h("dolist")
 	x := g.freshNames(1)[0]
 	l := g.expr(tList, d-1)
+	if g.r.Chance(10) { // the list form returns several values: the first is the list
+		g.h("dolist-values")
+		junk := g.expr(tInt, d-2)
+		l = node{lisp("values", l.L, junk.L), "(EValues " + gl(l.G, junk.G) + ")"}
+	}
 	g.loops++
 	mark := g.push(vinfo{name: x, t: tInt, ro: true})
 	b := g.stmts(2, d)
@@ -925,6 +930,11 @@ func (g *gen) dotimes(t typ, d int) (node, bool) {
 		n = node{fmt.Sprint(z), gInt(z)}
 		if g.r.Chance(25) {
 			n = g.tr(n)
+		}
+		if g.r.Chance(12) { // the count form returns several values: the first is the count
+			g.h("dotimes-values")
+			junk := g.expr(tInt, d-2)
+			n = node{lisp("values", n.L, junk.L), "(EValues " + gl(n.G, junk.G) + ")"}
 		}
 	} else if vs := g.vars(tList, 0, false); len(vs) > 0 {
 		v := common.Pick(g.r, vs)
